@@ -80,6 +80,15 @@ theorem corW_spec (v1 v2 w : List ℝ) (nw : Bool) (h1 : v1.length = w.length) (
       sdW_spec v1 _ false false (h1.trans hwn.symm), sdW_spec v2 _ false false (h2.trans hwn.symm)]
   rfl
 
+/-- a call that leaves the options to their defaults computes the unbiased estimate on normalised
+weights, and the default base of the entropies is the literal `2.7182818` -/
+theorem defaults_spec (v w : List ℝ) (h : v.length = w.length) :
+    sdW v w dfltUnbiased dfltNormalizeWeights = .ok (Real.sqrt (Spec.covW v v w true true)) ∧
+    varW v w dfltUnbiased dfltNormalizeWeights = .ok (Spec.covW v v w true true) ∧
+    (dfltBase : ℝ) = 27182818 / 10000000 := by
+  refine ⟨sdW_spec v w true true h, varW_spec v w true true h, ?_⟩
+  simp [dfltBase]
+
 /-! ## weighted cosine, Kronecker product -/
 
 /-- weighted `cos` is `Σ v1ᵢv2ᵢwᵢ / (√Σ v1ᵢ²wᵢ · √Σ v2ᵢ²wᵢ)` -/
